@@ -10,6 +10,7 @@ package main
 import (
 	"bytes"
 	"context"
+	"errors"
 	"fmt"
 	"os"
 	"runtime"
@@ -24,7 +25,9 @@ import (
 	"go.uber.org/zap"
 	"github.com/pingcap/kvproto/pkg/kvrpcpb"
 	"github.com/pingcap/kvproto/pkg/metapb"
+	"github.com/tikv/client-go/v2/config/retry"
 	"github.com/tikv/client-go/v2/internal/client"
+	"github.com/tikv/client-go/v2/kv"
 	"github.com/tikv/client-go/v2/internal/locate"
 	"github.com/tikv/client-go/v2/internal/mockstore/mocktikv"
 	"github.com/tikv/client-go/v2/rawkv"
@@ -202,6 +205,21 @@ func (h *env) topo(kind string, key []byte) {
 				want = v
 			}
 			h.raiseVersion(region.Id, want+1)
+		}
+	case "sendfail":
+		// "a request of somebody else failed on the region's store": the store epoch is bumped (RegionCache.OnSendFail),
+		// so every region cached with the old store epoch is refused by the request sender, which answers the next
+		// request WITHOUT an RPC with a pseudo region error (tikvrpc.GenRegionErrorResp) that the caller must treat
+		// like a real one (back off, locate again, retry).
+		rc := rawkv.ClientProbe{Client: h.cli}.GetRegionCache()
+		bo := retry.NewBackofferWithVars(context.Background(), 5000, nil)
+		loc, err := rc.LocateKey(bo, key)
+		if err != nil {
+			return
+		}
+		rpcCtx, err := rc.GetTiKVRPCContext(bo, loc.Region, kv.ReplicaReadLeader, 0)
+		if err == nil && rpcCtx != nil {
+			rc.OnSendFail(bo, rpcCtx, false, errors.New("injected send failure"))
 		}
 	case "leader":
 		var other *metapb.Peer
@@ -829,7 +847,7 @@ func parseInj(s string, batch bool) ([]*injection, bool) {
 			return nil, false
 		}
 		arg, ok := vx.UnHex(p[2])
-		if !ok || (p[1] != "split" && p[1] != "merge" && p[1] != "leader") {
+		if !ok || (p[1] != "split" && p[1] != "merge" && p[1] != "leader" && p[1] != "sendfail") {
 			return nil, false
 		}
 		in := &injection{kind: p[1], arg: arg}
@@ -1244,7 +1262,9 @@ func val(r *vx.Rand) string {
 	}
 	return vx.Hex(b)
 }
-func kind(r *vx.Rand) string { return []string{"split", "split", "merge", "leader"}[r.Intn(4)] }
+func kind(r *vx.Rand) string {
+	return []string{"split", "split", "merge", "leader", "sendfail", "sendfail"}[r.Intn(6)]
+}
 
 func seqInj(r *vx.Rand) string {
 	if r.Chance(45) {
